@@ -165,7 +165,7 @@ Print Assumptions C02_defrag_domain_gran1.
 (* every TLSF block of every list carries GranTlsf.GInv for its list's granularity, every block Allocation has a suballocation
    type 1..5 and a size that RoundUpAllocRequest leaves alone, in every state of every history with defragmentation *)
 Theorem C02_defrag_gran_bookkeeping : forall c v run,
-  cfg_ok c -> reachD c v run -> VamGran.GV v.
+  cfg_ok c -> reachD c v run -> VamGran.GV c v.
 Proof. intros c v run Hc. exact (reachD_gv c Hc v run). Qed.
 Print Assumptions C02_defrag_gran_bookkeeping.
 
